@@ -46,6 +46,8 @@ def parse(text: str, statement_stream_processor: "StatementStreamProcessor", *, 
     except RecursionError:
         # The PEG parser is recursive: an expression nested too deeply exhausts the interpreter stack before any statement
         # is processed. This is a property of the text, not an internal failure; the line is not known at this point.
+        if _verif_trace.ENABLED:
+            _verif_trace.emit("convert", layer="parse", cls="ParseError", line=0, path="None", at=0)
         raise DSDLSyntaxError("Syntax error: the definition is nested too deeply to be parsed") from None
     except parsimonious.VisitationError as ex:  # pragma: no cover
         # noinspection PyBroadException
